@@ -53,6 +53,8 @@ func runC05(p *Prog, r *Result) {
 	checkPrinterQueue(p, r, si)
 	checkCommentOverwrites(p, r, si)
 	checkMinifyGate(p, r, si)
+	r.Rule("R05g", "must-sink: every comment field of every node a printer function queues comments for is queued on every path through the scope where that node is bound (or handed to a method that does)", 24)
+	checkCommentMustSink(p, r, si, "R05g", c05MustSinkExceptions)
 	// the one construction site
 	g := buildRefGraph(p)
 	sites := g.constructionSites(si.commentT)
@@ -1271,7 +1273,16 @@ func checkMinifyGate(p *Prog, r *Result, si *syntaxInfo) {
 	}
 }
 
+var c05MustSinkExceptions = map[string]string{
+	"syntax.(Printer).assigns#a.Array.Last": "an Assign has a Value or an Array, never both: the path through `a.Value != nil` has no array to print",
+	"syntax.(Printer).ifClause#el.CondLast": "el is only printed here when it is a plain else branch, which has no condition list (an elif goes through the recursive call)",
+}
+
 var c05Controls = []Control{
+	{Name: "binary-same-line-drops-rhs-comments", Rule: "R05g", WantKey: "command#cmd.Y.Comments", File: "syntax/printer.go",
+		Mutate: ctlReplaceAnywhere("\t\t\t// Such as the one in \"foo | cat <<EOF # comment\".\n\t\t\tp.comments(cmd.Y.Comments...)\n", "")},
+	{Name: "else-tail-comments-not-queued", Rule: "R05g", WantKey: "ifClause#el.Last", File: "syntax/printer.go",
+		Mutate: ctlReplaceAnywhere("\t\tp.nestedStmts(el.Then, el.ThenLast, ic.FiPos)\n\t\tp.comments(el.Last...)\n", "\t\tp.nestedStmts(el.Then, el.ThenLast, ic.FiPos)\n")},
 	{Name: "printer-forgets-case-last", Rule: "R05a", WantKey: "CaseClause.Last", File: "syntax/printer.go",
 		Mutate: ctlReplaceAnywhere("\t\tp.comments(cmd.Last...)\n\t\tif p.swtCaseIndent {", "\t\tif p.swtCaseIndent {")},
 	{Name: "case-last-discarded", Rule: "R05b", WantKey: "caseClause#accComs = nil", File: "syntax/parser.go",
